@@ -158,7 +158,9 @@ func genC12() *rapid.Generator[Case] {
 			if !structs {
 				bad.After = bad.After[:3]
 			}
-			bad.Managed = false
+			// manual style: the handle from Begin; managed style: the handle db.Update passed to the function, used after
+			// Update returned and again from inside a later managed transaction
+			bad.Managed = rapid.Bool().Draw(t, "stalemanaged")
 			bad.End = rapid.SampledFrom([]string{"stale-commit", "stale-rollback"}).Draw(t, "staleend")
 			if bad.End == "stale-commit" {
 				bad.Ops = nil // a committed empty transaction, then calls on it
@@ -191,6 +193,9 @@ func genC12() *rapid.Generator[Case] {
 		}
 		steps = append(steps, c.Steps[pos:]...)
 		c.Steps = steps
+		if rapid.IntRange(0, 2).Draw(t, "blind") == 1 {
+			c.Extra = map[string]interface{}{"blind": true}
+		}
 		return c
 	})
 }
@@ -259,7 +264,9 @@ func runC12Once(c Case, st *Stats, fault *FaultSpec) (nw, ns int, fired bool, er
 		}
 		return fmt.Errorf("step %d (%s): a transaction that must have no effect changed the database (twin without it VS main): %s", i, what, d)
 	}
-	for i, s := range c.Steps {
+	blind := c.Extra["blind"] != nil && !hasMergeStep
+	// every run ends with a reopen and one more comparison ("both in the running process and after reopen")
+	for i, s := range append(append([]Step(nil), c.Steps...), Step{K: "reopen"}) {
 		switch s.K {
 		case "tx":
 			tm := m.RunTx(s, true, nil)
@@ -365,10 +372,10 @@ func runC12Once(c Case, st *Stats, fault *FaultSpec) (nw, ns int, fired bool, er
 			case "stale-commit", "stale-rollback":
 				for j, r := range tr.AfterRes {
 					if r.Panic != "" {
-						return nw, ns, fired, fmt.Errorf("step %d: %s on a finished transaction panicked: %s", i, bs.After[j].K, r.Panic)
+						return nw, ns, fired, fmt.Errorf("step %d: %s on a finished transaction panicked: %s", i, bs.After[j%len(bs.After)].K, r.Panic)
 					}
 					if !r.Err {
-						return nw, ns, fired, fmt.Errorf("step %d: %s on a finished transaction did not return an error (%s)", i, bs.After[j], r)
+						return nw, ns, fired, fmt.Errorf("step %d: %s on a finished transaction did not return an error (%s)", i, bs.After[j%len(bs.After)], r)
 					}
 				}
 			case "fnerr", "rollback":
@@ -379,6 +386,11 @@ func runC12Once(c Case, st *Stats, fault *FaultSpec) (nw, ns int, fired bool, er
 			if s.End == "stale-commit" {
 				// the (empty) transaction itself committed on main only: no effect by construction
 			}
+		}
+		if blind && i < len(c.Steps) && s.K != "reopen" {
+			// blind case: nothing is read between the steps (an observation is a series of read-only transactions, and
+			// state that a failed transaction leaves for "the next transaction" would be consumed by them)
+			continue
 		}
 		if err := compare(i, s.K+"/"+s.End); err != nil {
 			return nw, ns, fired, err
